@@ -906,4 +906,44 @@ theorem rtq_parseEvents_doc (env : Env) (input : Str) (blocks : List (NBlock α)
   · rw [h2.inlineQ]
   · rw [h2.frontMatter]
 
+/-! ### closed forms of the table update -/
+
+/-- a component that the modes (or `&`) make a reference to the definition at `t` -/
+theorem rtq_ingrPushM_reference (env : Env) (dm : DefineMode) (dup : DuplicateMode) (content : List Content) (nsec : Nat)
+    (tbl : Array (Ingredient (ScalableValue α))) (igr0 : Ingredient (ScalableValue α)) (t : Nat)
+    (defn : Ingredient (ScalableValue α)) (rf : List Nat) (b : Bool) (tg : Option RefTarget)
+    (hN : igr0.modifiers.contains Modifiers.NEW = false)
+    (htreat : igr0.modifiers.contains Modifiers.REF = true ∨ dm = .steps ∨ dup = .reference)
+    (hfound : sameNameIdx env (tbl.toList.map (fun x => (x.name, x.modifiers))) igr0.name = some t)
+    (hdefn : tbl[t]? = some defn) (hrel : defn.relation = ⟨.definition rf b, tg⟩) :
+    ingrPushM env dm dup content nsec tbl none igr0 =
+      (tbl.setIfInBounds t (backlinked defn rf tbl.size b tg)).push (asReference igr0 defn.modifiers t) := by
+  unfold ingrPushM
+  simp only [hN, rtq_treated _ _ _ htreat, Bool.not_true, Bool.or_self, Bool.false_eq_true, if_false, hfound, hdefn, hrel]
+
+/-- a component with `+` is appended as written, whatever the modes -/
+theorem rtq_ingrPushM_new (env : Env) (dm : DefineMode) (dup : DuplicateMode) (content : List Content) (nsec : Nat)
+    (tbl : Array (Ingredient (ScalableValue α))) (igr0 : Ingredient (ScalableValue α))
+    (hN : igr0.modifiers.contains Modifiers.NEW = true) :
+    ingrPushM env dm dup content nsec tbl none igr0 = tbl.push igr0 := by
+  unfold ingrPushM
+  simp [hN]
+
+/-- the first occurrence of a name (no earlier non-REF definition) is appended as written -/
+theorem rtq_ingrPushM_first (env : Env) (dm : DefineMode) (dup : DuplicateMode) (content : List Content) (nsec : Nat)
+    (tbl : Array (Ingredient (ScalableValue α))) (igr0 : Ingredient (ScalableValue α))
+    (hnone : sameNameIdx env (tbl.toList.map (fun x => (x.name, x.modifiers))) igr0.name = none) :
+    ingrPushM env dm dup content nsec tbl none igr0 = tbl.push igr0 := by
+  unfold ingrPushM
+  simp only [hnone]
+  split <;> rfl
+
+/-- in the default modes a component without `&` is appended as written -/
+theorem rtq_ingrPushM_default (env : Env) (content : List Content) (nsec : Nat)
+    (tbl : Array (Ingredient (ScalableValue α))) (igr0 : Ingredient (ScalableValue α))
+    (hR : igr0.modifiers.contains Modifiers.REF = false) :
+    ingrPushM env .all .new content nsec tbl none igr0 = tbl.push igr0 := by
+  unfold ingrPushM treatedAsRef
+  simp [hR]
+
 end Cook
